@@ -107,7 +107,7 @@ CORPUS = [
     ("long_double_complex",
      "long double ld(long double);\nfloat _Complex fc(double _Complex);\n"),
     ("existing_comments",
-     "/* c1 */ int c1(int); // c2\nint c2(int); /* multi\nline */\n"),
+     "/* c1 */ int c1(int); // c2\nint c2(int); /* multi\nline */\nunsigned/* only separator */long/**/c3(void);\n"),
     ("existing_line_directives",
      "# 1 \"inc//hdr...h\"\nint ld1(int);\n#line 5 \"inc//hdr...h\"\nint ld2(int);\n"),
 ]
